@@ -23,6 +23,7 @@ fn usage() -> ! {
 
 fn main() {
   install_panic_hook();
+  rarena_verif_harness::seq_hook::install();
   watchdog_start(60);
   let args: Vec<String> = std::env::args().skip(1).collect();
   match args.first().map(|s| s.as_str()) {
@@ -358,6 +359,12 @@ impl Gen {
 
   /// a member (A, S) of the typed-allocation table, sizes skewed small, S = 0 sometimes
   fn pick_ty(&mut self) -> (u64, u64) {
+    // over-aligned types (above the 16 bytes every system allocator grants anyway) now and then
+    if self.rng.chance(9) {
+      let a = self.rng.pick(&[32u64, 64]);
+      let s = if self.rng.chance(10) { 0 } else { a * self.rng.range(1, 128 / a) };
+      return (a, s);
+    }
     let a = self.rng.pick(&[1u64, 2, 4, 8, 16]);
     let n = 64 / a;
     let s = if self.rng.chance(10) { 0 } else { a * self.rng.range(0, n).min(self.rng.range(0, n)) };
@@ -834,6 +841,12 @@ impl Gen {
     }
     self.release_all(true, |_| false);
     self.emit("clear".to_string());
+    // the pristine arena as the accessors and the readers see it
+    self.emit("slices".to_string());
+    self.emit("info".to_string());
+    if self.rng.chance(50) {
+      self.gen_rd();
+    }
     let rest = self.left;
     self.run_mix(rest, false);
   }
@@ -863,10 +876,25 @@ impl Gen {
       let n = self.rng.range(8, 40);
       if let Some(h) = self.alloc_fill(n) {
         self.emit(format!("set_len {h} 0"));
+        let base = self.live().iter().find(|x| x.id == h).map(|x| x.off as u64);
+        let mut at = 0u64;
+        let mut written: Vec<(&str, u64)> = Vec::new();
         for _ in 0..self.rng.range(1, 4) {
           let ty = self.rng.pick(&VARS);
           let v = self.int_val(ty, true);
-          self.emit(format!("put_var {h} {ty} {v}"));
+          let ans = self.emit(format!("put_var {h} {ty} {v}"));
+          if ans.starts_with("r=ok") {
+            written.push((ty, at));
+            at = field(&ans, "len=").and_then(|x| x.parse().ok()).unwrap_or(at);
+          }
+        }
+        // read every value back through the arena-level reader at exactly the offset it was written to
+        // (same type, and sometimes another one)
+        if let Some(base) = base {
+          for (ty, o) in written {
+            let ty = if self.rng.chance(85) { ty } else { self.rng.pick(&VARS) };
+            self.emit(format!("rd_var {ty} {}", base + o));
+          }
         }
       }
     }
@@ -917,6 +945,12 @@ impl Gen {
         let rnd = self.rng.range(0, rem + 1);
         let n = self.rng.pick(&[rem, rem + 1, rem.saturating_sub(1), rem / 2, 1, rnd]);
         self.alloc_fill(n);
+      }
+      // the moved memory must still honour the configured maximum alignment
+      if self.rng.chance(60) {
+        let a = (self.cfg.as_ref().map(|c| c.maxalign as u64).unwrap_or(8)).clamp(8, 64);
+        let h = self.fresh_h();
+        self.emit(format!("alloc_t {h} {a} {a}"));
       }
       let n = (self.left / 2).max(1);
       self.run_mix(n, false);
@@ -1005,8 +1039,10 @@ impl Gen {
     let flavour = if self.rng.chance(50) { "sync" } else { "unsync" };
     // a read-only open must clear a truncate flag left in the caller's Options
     let trunc = if (mode == "ro" || mode == "copy_ro") && self.rng.chance(30) { " trunc=1" } else { "" };
+    // every mode has a second entry point taking a path builder
+    let pb = if self.rng.chance(35) { " pb=1" } else { "" };
     self.emit(format!(
-      "reopen {mode} cap={cap} magic={} freelist={} create={} flavour={flavour} reserved={} minseg={}{trunc}",
+      "reopen {mode} cap={cap} magic={} freelist={} create={} flavour={flavour} reserved={} minseg={}{trunc}{pb}",
       magic.unwrap_or(c.magic),
       FREELISTS[freelist.unwrap_or(c.freelist) as usize],
       create as u8,
@@ -1077,7 +1113,9 @@ impl Gen {
         4 => drop(self.emit("discard_freelist".to_string())),
         5 => drop(self.emit("clear".to_string())),
         6 => {
-          let n = self.rng.pick(&[0, 64, 4096, 10000]);
+          let ai = self.ai();
+          let (cap, al) = (ai.capacity as u64, ai.allocated as u64);
+          let n = self.rng.pick(&[0, 64, 4096, 10000, cap, cap, al, cap + 1, cap.saturating_sub(1)]);
           self.emit(format!("truncate {n}"));
         }
         7 => {
@@ -1138,13 +1176,29 @@ impl Gen {
         if self.rng.chance(30) {
           self.emit("flush".to_string());
         }
+        let remove = self.rng.chance(8);
+        if remove {
+          self.emit("remove_on_drop 1".to_string());
+        }
         self.close_all();
         self.emit("filehash".to_string());
+        if remove {
+          return self.reopen_line("mut", "same", None, None, true).starts_with("r=ok");
+        }
         self.reopen_good("mut")
       }
       _ => {
         self.read_only_ops();
+        // the mark works on read-only mappings too: the file disappears with the last arena value
+        let remove = self.rng.chance(10);
+        if remove {
+          self.emit("remove_on_drop 1".to_string());
+        }
         self.emit("close".to_string());
+        if remove {
+          self.emit("filehash".to_string());
+          return self.reopen_line("mut", "same", None, None, true).starts_with("r=ok");
+        }
         self.reopen_good("mut")
       }
     }
